@@ -547,7 +547,10 @@ impl PtraceDumper {
             mapping = self.find_mapping(stack_pointer);
         }
 
+        // A mapping without read or write permission (e.g. a guard region larger than the
+        // distance searched) is not a stack
         mapping
+            .filter(|mapping| Self::may_be_stack(Some(mapping)))
             .map(|mapping| {
                 let valid_stack_pointer = if mapping.contains_address(stack_pointer) {
                     stack_pointer
